@@ -6,7 +6,7 @@ No module of the repository is imported or executed.
 import ast
 import os
 
-from .core import AnalysisError
+from .core import AnalysisError, ToolError
 
 PKGS = ('prophy', 'prophyc')
 SKIP_DIRS = ('tests', 'clang', '__pycache__')
@@ -103,7 +103,7 @@ class Module(object):
         try:
             self.tree = ast.parse(self.source, self.path)
         except SyntaxError as e:
-            raise AnalysisError('module %s does not parse: %s' % (rel, e))
+            raise ToolError('module %s does not parse: %s' % (rel, e))
         fold_version_guards(self.tree)
         if not os.environ.get('SA_NO_CANON'):
             from . import canon
@@ -286,7 +286,7 @@ class Tree(object):
         for pkg in PKGS:
             base = os.path.join(root, pkg)
             if not os.path.isdir(base):
-                raise AnalysisError('package %s missing under %s' % (pkg, root))
+                raise ToolError('package %s missing under %s' % (pkg, root))
             for d, dirs, files in os.walk(base):
                 dirs[:] = sorted(x for x in dirs if x not in SKIP_DIRS)
                 for fn in sorted(files):
